@@ -24,7 +24,8 @@ TuOne == <<"none", "t1", "none">>
 
 \* (1) the Differences cursor machine: every array of <= MaxDiff elements over 3 numbers and 3 names
 DiffElems == {I(1), I(2), I(4), N("gA"), N("gB"), N("gBad")}
-FontsDiff == {[F0 EXCEPT !.diff = d, !.tu = t] : d \in SeqsUpTo(DiffElems, MaxDiff), t \in {<<>>, TuOne}}
+FontsDiff == {[F0 EXCEPT !.diff = d] : d \in SeqsUpTo(DiffElems, MaxDiff)}
+             \cup {[F0 EXCEPT !.diff = d, !.tu = TuOne] : d \in SeqsUpTo(DiffElems, MaxDiff - 1)}
 
 \* (2) precedence: every way of naming the base encoding x short Differences x every ToUnicode map on 3 codes
 EncPlain == {<<"absent", "">>, <<"name", "std">>, <<"name", "mac">>, <<"name", "win">>, <<"name", "pdf">>,
